@@ -11,6 +11,8 @@ MGR_NAMES = ('workprec', 'workdps', 'extraprec', 'extradps')
 
 def pick_prec(rng, hi=1200):
     r = rng.random()
+    if hi <= 66:
+        return 53 if (r < 0.3 and hi >= 53) else rng.randint(1, max(1, hi))
     if r < 0.10:
         return 53
     if r < 0.35:
@@ -298,6 +300,47 @@ class Exec(object):
         w.log.append({'id': st.get('id'), 'kind': 'with-exit', 'actor': actor})
         self.check(st, rec, 'exit')
         return rec
+
+
+def cache_signature(w):
+    """Best-effort introspection of the caches of DESIGN.md 1.2 (sizes and
+    precision buckets).  Used for coverage counting only, never by an oracle."""
+    lm = w.mpmath.libmp
+    le, gz, li = lm.libelefun, lm.gammazeta, lm.libintmath
+    sig = []
+    try:
+        for name in ('pi_fixed', 'ln2_fixed', 'e_fixed', 'euler_fixed', 'catalan_fixed', 'ln10_fixed'):
+            f = getattr(le, name, None) or getattr(gz, name, None)
+            mp_ = -1
+            if f is not None and f.__closure__:
+                for c in f.__closure__:
+                    try:
+                        v = c.cell_contents
+                    except ValueError:
+                        continue
+                    if hasattr(v, 'memo_prec'):
+                        mp_ = v.memo_prec
+            sig.append(mp_.bit_length() if mp_ > 0 else 0)
+        sig.append(len(getattr(gz, 'bernoulli_cache', {})))
+        sig.append(len(getattr(gz, 'gamma_taylor_cache', {})))
+        sig.append(len(getattr(gz, 'gamma_stirling_cache', {})))
+        sig.append(len(getattr(gz, 'zeta_int_cache', {})))
+        sig.append(len(getattr(gz, 'borwein_cache', {})))
+        sig.append(len(getattr(gz, 'sieve_cache', [])).bit_length())
+        sig.append(len(getattr(le, 'log_int_cache', {})).bit_length())
+        sig.append(len(getattr(le, 'log_taylor_cache', {})).bit_length())
+        sig.append(len(getattr(le, 'atan_taylor_cache', {})).bit_length())
+        sig.append(len(getattr(le, 'cos_sin_cache', {})).bit_length())
+        mp = w.actors['mp']
+        sig.append(len(getattr(mp, 'hyp_summators', {})))
+        sig.append(len(getattr(mp, '_misc_const_cache', {})))
+        for rule in ('_gauss_legendre', '_tanh_sinh'):
+            r = getattr(mp, rule, None)
+            sig.append(len(getattr(r, 'standard_cache', {})))
+            sig.append(len(getattr(r, 'transformed_cache', {})))
+    except Exception:
+        sig.append('?')
+    return tuple(sig)
 
 
 # ---------------------------------------------------------------------------
